@@ -127,7 +127,9 @@ pub fn cfg_for(driver: &str, tier: &str) -> Option<(Cfg, u32)> {
         // C04 (sequential half): send / clone / drop / disable / enable / dispatch histories
         "chan-seq" => {
             let mut c = Cfg::base("chan-seq");
-            c.initial_sets = vec![vec![KindSpec::Chan], vec![KindSpec::Chan, KindSpec::Ping]];
+            c.check_wait = true;
+            c.top_dispatch_none = true;
+            c.initial_sets = vec![vec![KindSpec::Chan], vec![KindSpec::Chan, KindSpec::Ping], vec![KindSpec::SyncChan(1)], vec![KindSpec::SyncChan(2), KindSpec::SyncChan(0)]];
             c.max_actors = 2;
             c.depth = if q { 7 } else { 9 };
             c.top_remove = false;
@@ -167,8 +169,12 @@ pub fn cfg_for(driver: &str, tier: &str) -> Option<(Cfg, u32)> {
         // C12: how long dispatch waits — timeouts x timer sets x idle sources of every kind
         "wait" => {
             let mut c = Cfg::base("wait");
-            let idle = vec![KindSpec::Ping, KindSpec::Chan, FD_RL, FD_RO];
+            let idles = vec![
+                vec![KindSpec::Ping, KindSpec::Chan, FD_RL, FD_RO],
+                vec![KindSpec::SyncChan(1), KindSpec::SyncChan(0), KindSpec::Ping],
+            ];
             let mut sets = vec![];
+            for idle in idles {
             for timers in [
                 vec![],
                 vec![KindSpec::Timer(1)],
@@ -182,8 +188,9 @@ pub fn cfg_for(driver: &str, tier: &str) -> Option<(Cfg, u32)> {
                 s.extend(timers);
                 sets.push(s);
             }
+            }
             c.initial_sets = sets;
-            c.max_actors = 6;
+            c.max_actors = 8;
             c.depth = if q { 4 } else { 5 };
             c.top_remove = false;
             c.top_update = false;
